@@ -23,7 +23,8 @@ about is NOT generated):
   * short groups are `-<flags...>` optionally ended by ONE value option (attached value, separate value or bare).
   * a multi-valued option is repeated once per value, occurrences in value order (different options permute freely).
   * command names are spelled by name or alias, in order, in front of the argument values; a trailing suffix of
-    them may be omitted (default-command path) only if no argument value equals a name/alias of an omitted name.
+    them may be omitted (default-command path) only if no argument value IN FRONT OF `--` equals a name/alias of an
+    omitted name (words behind `--` are arbitrary tokens, never command names).
   * options are placed in every gap of the positional sequence in front of `--` (also before/among command names).
 """
 import itertools
@@ -104,7 +105,7 @@ def parse(fmt, tokens, lenient):
 # value domains: (text, expected python value).  `tag` perturbs the values so that values sitting at different
 # positions / belonging to different options differ (a swap, a shift or a reversal is then visible).
 # ------------------------------------------------------------------------------------------------
-def domain(typ, nullable, tag, n, positional=False, with_null=False):
+def domain(typ, nullable, tag, n, positional=False, with_null=False, extra=()):
     """first n values of the type's list; 'null' is added for nullable kinds (-> None) and, for strings, also when
     with_null is set or the list is exhausted (a non-nullable string keeps the text "null")"""
     if typ == "string":
@@ -129,6 +130,8 @@ def domain(typ, nullable, tag, n, positional=False, with_null=False):
     else:
         raise ValueError(typ)
     out = d[:n]
+    if typ == "string":
+        out += [(x, x) for x in extra]
     if nul is not None and (nullable or n >= len(d) or with_null):
         out.append(nul)
     return [list(x) for x in out]
@@ -163,7 +166,7 @@ def option_choices(spec, k, dom_n, multi_len, bare_none=False, with_null=False):
     return ch
 
 
-def argument_choices(spec, dom_n, multi_len, with_null=False):
+def argument_choices(spec, dom_n, multi_len, with_null=False, extra=()):
     """all legal value vectors for the arguments (optional ones prefix-closed)"""
     args = spec["args"]
     res = []
@@ -175,24 +178,26 @@ def argument_choices(spec, dom_n, multi_len, with_null=False):
         name, mode, typ, nullable, default = args[i]
         if mode in ("multi", "reqmulti"):
             lo = 1 if mode == "reqmulti" else 0
-            for t in _tuples(lambda j: domain(typ, nullable, i + j, dom_n, True, with_null), lo, multi_len):
+            for t in _tuples(lambda j: domain(typ, nullable, i + j, dom_n, True, with_null, extra), lo, multi_len):
                 res.append(acc + [t if t else None])
             return
         if mode == "opt":
             res.append(acc + [None] * (len(args) - i))  # this and every later argument absent
-        for v in domain(typ, nullable, i, dom_n, True, with_null):
+        for v in domain(typ, nullable, i, dom_n, True, with_null, extra):
             rec(i + 1, acc + [[v]])
 
     rec(0, [])
     return res
 
 
-def assignments(spec, dom_n=2, arg_dom_n=None, multi_len=2, arg_multi_len=None, bare_none=False, with_null=False):
-    """simplest first: fewer given elements first (stable)"""
+def assignments(spec, dom_n=2, arg_dom_n=None, multi_len=2, arg_multi_len=None, bare_none=False, with_null=False,
+                arg_extra=()):
+    """simplest first: fewer given elements first (stable).
+    arg_extra: extra string values for string arguments (e.g. words that equal a command name)"""
     arg_dom_n = dom_n if arg_dom_n is None else arg_dom_n
     arg_multi_len = multi_len if arg_multi_len is None else arg_multi_len
     och = [option_choices(spec, k, dom_n, multi_len, bare_none, with_null) for k in range(len(spec["opts"]))]
-    ach = argument_choices(spec, arg_dom_n, arg_multi_len, with_null)
+    ach = argument_choices(spec, arg_dom_n, arg_multi_len, with_null, arg_extra)
     out = []
     for a in ach:
         for o in itertools.product(*och):
@@ -425,9 +430,6 @@ def spellings(spec, asg, groups=True, omit_names=True, tails=True):
     tl = [(m, False)] if s_max == m else []
     if tails or s_max < m:
         tl += [(s, True) for s in range(s_max, -1, -1)]
-    nvs = name_variants(spec, V)
-    if not omit_names:
-        nvs = [nv for nv in nvs if len(nv) == len(spec["names"])]
     occ_groups = []
     for k, ch in enumerate(asg["opts"]):
         if ch is None:
@@ -437,8 +439,11 @@ def spellings(spec, asg, groups=True, omit_names=True, tails=True):
         else:
             occ_groups.append([(k, (ch[0],))])
     orderings = list(_orderings(occ_groups))
-    for nv in nvs:
-        for s, dd in tl:
+    for s, dd in tl:
+        nvs = name_variants(spec, V[:s])
+        if not omit_names:
+            nvs = [nv for nv in nvs if len(nv) == len(spec["names"])]
+        for nv in nvs:
             P = nv + V[:s]
             Proles = [["N", [j]] for j in range(len(nv))] + [["A", [Vi[j]]] for j in range(s)]
             tail = (["--"] + V[s:]) if dd else []
